@@ -5,10 +5,39 @@ usage: tools/run_seeded.py [ids...]"""
 import json, os, re, shutil, subprocess, sys, tempfile
 HERE = os.path.dirname(os.path.dirname(os.path.abspath(__file__)))
 SEED = os.path.join(HERE, 'seeded')
-ids = sys.argv[1:] or sorted(d for d in os.listdir(SEED) if os.path.isdir(os.path.join(SEED, d)))
+argv = sys.argv[1:]
+jobs = 1
+if argv and argv[0] == '--jobs':
+    jobs, argv = int(argv[1]), argv[2:]
+ids = argv or sorted(d for d in os.listdir(SEED) if os.path.isdir(os.path.join(SEED, d)))
+RESULTS = os.environ.get('SEEDED_RESULTS') or os.path.join(SEED, 'RESULTS.json')
+if jobs > 1:
+    # several changes at a time: one child per slice, each with its own result file, merged at the end
+    os.makedirs(os.path.join(HERE, '.scratch'), exist_ok=True)
+    kids = []
+    groups = {}
+    for i in ids:          # all changes of one property stay in one child (replay files are per property)
+        groups.setdefault(i.split('_')[0], []).append(i)
+    pids = sorted(groups)
+    for k in range(jobs):
+        part = [i for pp in pids[k::jobs] for i in groups[pp]]
+        if not part:
+            continue
+        out = os.path.join(HERE, '.scratch', 'seeded_results.%d.json' % k)
+        if os.path.exists(out):
+            os.unlink(out)
+        kids.append((out, subprocess.Popen([sys.executable, os.path.abspath(__file__)] + part, env=dict(os.environ, SEEDED_RESULTS=out))))
+    for out, p in kids:
+        p.wait()
+    res = json.load(open(os.path.join(SEED, 'RESULTS.json'))) if os.path.exists(os.path.join(SEED, 'RESULTS.json')) else {}
+    for out, p in kids:
+        if os.path.exists(out):
+            res.update(json.load(open(out)))
+    json.dump(res, open(os.path.join(SEED, 'RESULTS.json'), 'w'), indent=1, sort_keys=True)
+    sys.exit(0)
 res = {}
-if os.path.exists(os.path.join(SEED, 'RESULTS.json')):
-    res = json.load(open(os.path.join(SEED, 'RESULTS.json')))
+if os.path.exists(RESULTS):
+    res = json.load(open(RESULTS))
 
 
 def run(cmd, env=None, timeout=900, cwd=None):
@@ -62,5 +91,5 @@ for sid in ids:
     finally:
         shutil.rmtree(clean, ignore_errors=True)
         shutil.rmtree(mut, ignore_errors=True)
-    json.dump(res, open(os.path.join(SEED, 'RESULTS.json'), 'w'), indent=1, sort_keys=True)
+    json.dump(res, open(RESULTS, 'w'), indent=1, sort_keys=True)
 # restore the evidence of the unchanged tree is the caller's job (checks rewrite evidence/<id>.json)
